@@ -521,8 +521,43 @@ def gen_case(rng, size=None, max_faces=80):
     info = {"seed_kind": kind, "size": size, "edits": applied, "coords": style, "singu_mode": mode,
             "features": feat is not None, "form": form, "late": late}
     info.update(st)
+    sess = gen_session(rng, nv, feat is not None, form)
+    # index 0 plays the key role in a fraction of the cases (truthiness of 0)
+    if singus and rng.random() < 0.25 and 0 not in singus:
+        singus[rng.randrange(len(singus))] = 0
+    info["session"] = sorted(k for k, v in sess.items() if v and k != "call") + ["call=" + sess["call"]]
     return {"nv": nv, "faces": faces, "coords": c2, "singus": singus, "feat": feat, "form": form, "late": late,
-            "info": info}
+            "session": sess, "info": info}
 
 
-FORMS = ["list", "tuple", "set", "frozenset", "array", "dict", "attribute", "generator", "iter", "filter", "map"]
+FORMS = ["list", "tuple", "set", "frozenset", "array", "array32", "array_u8", "npscalars", "dict", "dictkeys", "attribute",
+         "generator", "iter", "filter", "map"]
+
+
+def gen_session(rng, nv, has_feat, form):
+    """how the cutter is used: call form, other cutters on the same mesh (whose results are wrecked), repeated calls,
+    order of access to the lazily built results, pre-existing attributes with colliding names, declared edges,
+    library switches toggled at run time, a failed run() repaired by the caller"""
+    s = {}
+    r = rng.random
+    s["call"] = rng.choice(["kw", "kw", "pos", "kwall", "omit"])
+    if r() < 0.25:
+        s["decoy"] = rng.sample(range(nv), min(nv, rng.randint(0, 3)))
+    if r() < 0.2:
+        s["post_decoy"] = rng.sample(range(nv), min(nv, rng.randint(0, 3)))
+    if r() < 0.2:
+        s["rerun"] = 1
+    if r() < 0.3:
+        s["access"] = "graph_first"
+    if r() < 0.2:
+        s["stale_attr"] = True
+        s["dup_warning"] = r() < 0.6
+    if r() < 0.25:
+        s["declared_edges"] = True
+    if r() < 0.15:
+        s["sort_off"] = True
+    if form == "list" and r() < 0.12:
+        s["bad_then_repair"] = True
+    if form == "list" and r() < 0.25:
+        s["reconfigure"] = True
+    return s
